@@ -106,7 +106,21 @@ PROPS["C01"] = {
     "partial": "termination under fairness (par_walk_progress) is checked by exploration only; the prologue/serial-walk refinement (red_refines_fold) is in Props/C01Red where proved",
 }
 
+PROPS["C19"] = {
+    "gen": ["Stage", "WalkWorker"],
+    "props_files": ["C19"],
+    "trusted_base": ["the multiprocessing model of DESIGN.md §3; a worker that is killed from outside (not: raises) is outside the property",
+                     "that a failing item leaves the worker's control flow identical to a successful one is read off the source (try/except around the per-item work, no break/return/raise in the handler)"],
+    "assumptions": COMMON_ASSUME + ["the failure is an Exception raised by the callback / per-item work (BaseException such as KeyboardInterrupt is not caught by design)"],
+    "partial": "",
+}
+
 LEVEL_TEXT = {
+    "C19": {
+        "text": "How the five parallel code paths treat a failing item is re-extracted each run (worker: try/except around the per-item work, set the shared error event, continue the loop; parent: raise after joining when the event is set). Theorems over the hand-off protocol extended with failing callbacks: every execution with failures projects onto a failure-free execution, so the C03 results (all workers exit, queues drained, every item handed to a callback exactly once) carry over; once the parent has finished it has raised exactly when some callback failed — for all workers, items, interleavings and failure sets. The real walk / visit_leaves / transform / multi_tan / multi_wcs are run with a failing item under a deterministic scheduler, with real processes under a watchdog, and serially.",
+        "note": "trusted: Lean kernel; multiprocessing semantics; simmp; the source-shape extraction. For the walk, the tile whose callback failed is still reported to the dispatcher, so the protocol of C01 is unchanged.",
+        "technique": "Lean 4 proof (simulation onto the failure-free protocol) + fault injection under deterministic schedules",
+    },
     "C01": {
         "text": "Bit/slot formulas, the release test, the seeding level and the stop test of _walk_parallel are re-extracted each run. A phase-based transition system (every tile waiting / in the ready queue / held, running, finished in a worker / in the done queue / retired; dispatcher with 4-bit readiness masks) is proved, for every number of workers and every interleaving, to keep an invariant relating masks to retired children; corollaries: whenever a callback is about to start, the callbacks of all live non-leaf children have completed (also as an ordering statement on the callback log); callbacks start at most once and only for live non-leaf tiles of the sub-pyramid; when walk has returned all workers have exited and the set of started = completed callbacks is exactly the live non-leaf tiles. The real Pyramid.walk is run serially, under a deterministic scheduler (2-4 workers, biased random schedules) and with real processes on generated pyramids (all depth-1 filters, gappy filters, sub-pyramids); every simulated trace is replayed through the Lean transition function starting from the model's own prologue (its reduction iterator), and every callback log is checked against the property.",
         "note": "trusted: Lean kernel; the multiprocessing semantics; simmp; fact extraction; the abstract configuration Cfg is what the prologue must deliver (ops duplicate-free and closed under parents up to the apex, seeds = ops one level above the leaves, pre-readied bits = dead children) — its derivation from the reducer is Props/C01Red.",
